@@ -136,7 +136,7 @@ Print Assumptions C03_reject_clean_step.
 Definition ev_reauth := ev_pending ++ [EvAAA 1 AAcc; EvFrame 0 (FrLcp (FCreq QGood)); EvFrame 0 (FrLcp (FCack true));
                                        EvFrame 0 FrChapResp].
 Example C03_reject_clean_nonvacuous :
-  let v := mkV true false in
+  let v := mkV3 true false false in   (* /repo HEAD: without the link-end teardown a lease can coexist with an outstanding request *)
   let st := fst (run v (init 2) ev_reauth) in
   (* accepted, renegotiated, second request outstanding, lease held: the hypotheses are met ... *)
   find_idx (pend_matches v 2) (sl st) 0 = Some 0 /\ option_map lease (nth_error (sl st) 0) = Some 1 /\ free st = 1 /\
@@ -144,10 +144,37 @@ Example C03_reject_clean_nonvacuous :
   free (fst (step v st (EvAAA 2 ARej))) = 2 /\ option_map live (nth_error (sl (fst (step v st (EvAAA 2 ARej)))) 0) = Some false /\
   free (fst (step v st (EvAAA 2 AAcc))) = 1 /\ option_map live (nth_error (sl (fst (step v st (EvAAA 2 AAcc)))) 0) = Some true /\
   (* the code before c6c869c / 8b06a36 kept lease and session on this path *)
-  free (fst (run (mkV false false) (init 2) (ev_reauth ++ [EvAAA 2 ARej]))) = 1 /\
-  option_map live (nth_error (sl (fst (run (mkV false false) (init 2) (ev_reauth ++ [EvAAA 2 ARej])))) 0) = Some true.
+  free (fst (run (mkV3 false false false) (init 2) (ev_reauth ++ [EvAAA 2 ARej]))) = 1 /\
+  option_map live (nth_error (sl (fst (run (mkV3 false false false) (init 2) (ev_reauth ++ [EvAAA 2 ARej])))) 0) = Some true.
 Proof. intros v st. repeat split; timeout 20 (vm_compute; reflexivity). Qed.
 Print Assumptions C03_reject_clean_nonvacuous.
+
+(* C03_link_end_teardown ([vtd v = true] = fixes/C03_pppoe_lcp_down_teardown.patch; /repo HEAD is [vtd = false], known finding
+   pppoe-reneg-keeps-dataplane).  From EVERY state: a frame that makes LCP leave Opened (marker GLcpDown — emitted whenever
+   the compared LCP state leaves Opened, C03_lcp_down_marked) while the session is in Network/Open removes the session in
+   the same step (terminate: lease released, dataplane session deleted, Released published); by C03_reject_clean's
+   continuation lemma it stays removed until the next PADR.  So lease and dataplane entry never outlive the
+   authenticated link, re-authentication of an accepted session does not exist any more (a missing answer cannot keep
+   anything), and a Framed-IP accept can no longer land on a session that holds a pool lease. *)
+Theorem C03_link_end_teardown : forall v st i f s, vtd v = true ->
+  nth_error (sl st) i = Some s -> live s = true -> in_net (ph s) = true ->
+  In (i, GLcpDown) (snd (step v st (EvFrame i f))) ->
+  exists s', nth_error (sl (fst (step v st (EvFrame i f)))) i = Some s' /\ live s' = false /\ ph s' = PTerminate.
+Proof. exact GateReject.link_end_teardown_step. Qed.
+Print Assumptions C03_link_end_teardown.
+Example C03_link_end_teardown_nonvacuous :
+  let evs := ev_pending ++ [EvAAA 1 AAcc; EvFrame 0 (FrIpcp (FCreq QGood)); EvFrame 0 (FrIpcp (FCack true))] in
+  let e := EvFrame 0 (FrLcp (FCreq QGood)) in
+  (* open, lease held; the peer renegotiates: with the fix the session is gone and the lease is back ... *)
+  free (fst (run (mkV true false) (init 2) evs)) = 1 /\
+  free (fst (run (mkV true false) (init 2) (evs ++ [e]))) = 2 /\
+  option_map live (nth_error (sl (fst (run (mkV true false) (init 2) (evs ++ [e])))) 0) = Some false /\
+  (* ... on /repo HEAD it stays, in Establish, with its lease (and its dataplane session) *)
+  free (fst (run (mkV3 true false false) (init 2) (evs ++ [e]))) = 1 /\
+  option_map (fun s => (live s, ph s, alloc_pool s)) (nth_error (sl (fst (run (mkV3 true false false) (init 2) (evs ++ [e])))) 0)
+    = Some (true, PEstablish, true).
+Proof. intros evs e. repeat split; timeout 20 (vm_compute; reflexivity). Qed.
+Print Assumptions C03_link_end_teardown_nonvacuous.
 
 (* C03_renegotiation_reauth.  Split any history at a point where slot i's monitor holds no accept (mn1; in
    particular right after LCP left Opened, [C03_lcp_down_clears_accept]).  If in the continuation no allowed AAA
@@ -173,7 +200,7 @@ Theorem C03_renegotiation_reauth_events : forall v pool evs1 e evs2 i, vrep v = 
 Proof. exact GateMain.reauth_events. Qed.
 Print Assumptions C03_renegotiation_reauth_events.
 Example C03_renegotiation_reauth_nonvacuous :
-  let v := mkV true false in
+  let v := mkV3 true false false in   (* /repo HEAD; with [vtd] the renegotiation of an open session ends it, below *)
   let evs1 := ev_pending ++ [EvAAA 1 AAcc; EvFrame 0 (FrIpcp (FCreq QGood)); EvFrame 0 (FrIpcp (FCack true))] in
   let e := EvFrame 0 (FrLcp (FCreq QGood)) in
   let st1 := fst (run v (init 2) (evs1 ++ [e])) in
@@ -187,7 +214,7 @@ Example C03_renegotiation_reauth_nonvacuous :
   (* re-authentication accepted: service resumes, so the conclusion does depend on the hypothesis *)
   no_service 0 (snd (run v st1 ([EvFrame 0 (FrLcp (FCack true)); EvFrame 0 FrChapResp; EvAAA 2 AAcc] ++ probe))) = false /\
   (* the code before 8b06a36: accepted, renegotiated before IPCP converged: the probes are served without any new accept *)
-  no_service 0 (snd (run (mkV false false) (fst (run (mkV false false) (init 2) (ev_pending ++ [EvAAA 1 AAcc; e]))) probe)) = false.
+  no_service 0 (snd (run (mkV3 false false false) (fst (run (mkV3 false false false) (init 2) (ev_pending ++ [EvAAA 1 AAcc; e]))) probe)) = false.
 Proof.
   intros v evs1 e st1 probe. repeat split; try (timeout 20 (vm_compute; reflexivity)).
   intros k a H. cbn [app In] in H.
@@ -238,7 +265,7 @@ Definition w_empty := [EvOpen 0; EvAAA 0 AAcc].
 (* (3) IPCP keeps retransmitting after LCP went down *)
 Definition w_timer := ev_lcp_up ++ [EvFrame 0 FrChapResp; EvAAA 1 AAcc; EvFrame 0 (FrLcp (FCreq QGood)); EvTimer 0 TIpcp].
 Theorem C03_gate_refuted : forall rfc,
-  Forall (fun evs => mon_run 0 (snd (run (mkV false rfc) (init 2) evs)) mon0 = None) [w_stale; w_empty; w_timer].
+  Forall (fun evs => mon_run 0 (snd (run (mkV3 false rfc false) (init 2) evs)) mon0 = None) [w_stale; w_empty; w_timer].
 Proof. intros []; repeat constructor; vm_compute; reflexivity. Qed.
 Print Assumptions C03_gate_refuted.
 (* ... and the repaired variant does not, on the same inputs *)
